@@ -32,7 +32,7 @@ fn model(log: &[Rec], setups: &[Setup], exact_first_seen: bool, m: &mut Mon) {
     let mut mem = Book::default();
     let mut inc = 0usize;
     let mut os_version = setups[0].os_version.clone();
-    let mut system_app = setups[0].apps[0].id.clone();
+    let mut system_app = setups[0].apps[setups[0].system_idx].id.clone();
     // per incarnation
     let mut start_wall: Option<i128> = None;
     let mut expect_report = false;
@@ -166,7 +166,7 @@ fn model(log: &[Rec], setups: &[Setup], exact_first_seen: bool, m: &mut Mon) {
                 inc += 1;
                 let s = &setups[inc.min(setups.len() - 1)];
                 os_version = s.os_version.clone();
-                system_app = s.apps[0].id.clone();
+                system_app = s.apps[s.system_idx].id.clone();
                 reported = 0;
                 passed_first_next = false;
                 clean_install_in_inc = false;
@@ -379,10 +379,12 @@ pub fn run(args: &Args, r: &mut Report) {
         let mut rng = Rng::derive(args.seed, args.shard, 18, i);
         let n_apps = 1 + rng.usize(3);
         let apps = gen_apps(&mut rng, n_apps);
+        // the embedder's AppSet decides which app is the system app: not necessarily the first one
+        let sys_idx = if rng.chance(1, 3) { rng.usize(n_apps) } else { 0 };
         let n_inc = 1 + rng.usize(4);
         let mut script = Script::default();
         let mut incs: Vec<Inc> = vec![];
-        let mut shape = vec![format!("apps{}", n_apps)];
+        let mut shape = vec![format!("apps{} sys{}", n_apps, sys_idx)];
         let mut last_target: Option<String> = None;
         let mut os = "1.0.0.0".to_string();
         let autotick = rng.bool();
@@ -407,22 +409,22 @@ pub fn run(args: &Args, r: &mut Report) {
                         1 => AppKind::OfferNoVersion,
                         _ => AppKind::Offer,
                     };
-                    let id = if ai == 0 && rename_at.map(|r| k >= r).unwrap_or(false) { new_sys_id.clone() } else { apps[ai].id.clone() };
+                    let id = if ai == sys_idx && rename_at.map(|r| k >= r).unwrap_or(false) { new_sys_id.clone() } else { apps[ai].id.clone() };
                     let mut da = doc_app(&id, kind, &mut rng, false);
                     if kind == AppKind::Offer {
                         let v = format!("{}.0.0.{}", 2 + rng.below(3), rng.below(3));
                         da.updatecheck = Some(UcSpec::ok(Some(&v)));
-                        if ai == 0 {
+                        if ai == sys_idx {
                             sys_target = Some(v);
                         }
-                    } else if kind == AppKind::OfferNoVersion && ai == 0 {
+                    } else if kind == AppKind::OfferNoVersion && ai == sys_idx {
                         sys_target = Some("UNKNOWN".into());
                     }
                     if kind != AppKind::NoUpdate {
                         offered += 1;
                     }
                     pat.push(match kind { AppKind::Offer => 'O', AppKind::OfferNoVersion => 'o', _ => 'n' });
-                    if ai == 0 {
+                    if ai == sys_idx {
                         pat.push('*');
                     }
                     doc_apps.push(da);
@@ -430,7 +432,7 @@ pub fn run(args: &Args, r: &mut Report) {
                 if offered == 0 {
                     doc_apps[0].updatecheck = Some(UcSpec::ok(Some("3.3.3.3")));
                     offered = 1;
-                    if order[0] == 0 {
+                    if order[0] == sys_idx {
                         sys_target = Some("3.3.3.3".into());
                     }
                     pat.push('!');
@@ -479,12 +481,12 @@ pub fn run(args: &Args, r: &mut Report) {
             shape.push(lab);
             let mut inc_apps = apps.clone();
             if rename_at.map(|r| k > r).unwrap_or(false) {
-                inc_apps[0].id = new_sys_id.clone();
+                inc_apps[sys_idx].id = new_sys_id.clone();
             }
             if rename_at == Some(k) {
                 shape.push("rename".into());
             }
-            let setup = Setup { apps: inc_apps, start_mode: true, os_version: os.clone(), cup: false, ..Default::default() };
+            let setup = Setup { apps: inc_apps, start_mode: true, os_version: os.clone(), cup: false, system_idx: sys_idx, ..Default::default() };
             incs.push(Inc { setup, stop_idle: attempts, crash_at, jump });
             // choose the next incarnation's running version
             os = match rng.below(3) {
